@@ -27,11 +27,13 @@ CONSTANTS Msgs,        \* message ids 1..n
           Bad,         \* message ids whose decode fails (after the tables were loaded)
           TgLimit, CompMax, MaxLen
 
-VARIABLES tg, comp, objs, hist
-vars == <<tg, comp, objs, hist>>
-View == <<tg, comp, objs>>
+VARIABLES tg, comp, objs, lenient, hist
+vars == <<tg, comp, objs, lenient, hist>>
+View == <<tg, comp, objs, lenient>>
 
-Init == tg = <<>> /\ comp = {} /\ objs = {} /\ hist = <<>>
+(* lenient: the coder object has been used with expected values not enforced - a per-call option that must leave
+   nothing behind, which is why the model keeps it as state: every operation is exercised before AND after it *)
+Init == tg = <<>> /\ comp = {} /\ objs = {} /\ lenient = FALSE /\ hist = <<>>
 
 Has(s, x) == \E i \in 1..Len(s) : s[i] = x
 (* loading a table group: drop the most recent entries until there is room, then insert *)
@@ -46,19 +48,23 @@ Compile(t, k) ==
 Step(op, m) == hist' = Append(hist, [op |-> op, m |-> m]) /\ Len(hist) < MaxLen
 
 Decode(m) == /\ m \in Msgs \ Bad /\ Step("decode", m)
-             /\ tg' = Load(KeyOf[m]) /\ comp' \in Compile(TmplOf[m], KeyOf[m]) /\ objs' = objs \cup {m}
+             /\ tg' = Load(KeyOf[m]) /\ comp' \in Compile(TmplOf[m], KeyOf[m]) /\ objs' = objs \cup {m} /\ UNCHANGED lenient
 DecodeFails(m) == /\ m \in Bad /\ Step("decode_fails", m)
-                  /\ tg' = Load(KeyOf[m]) /\ UNCHANGED <<comp, objs>>
+                  /\ tg' = Load(KeyOf[m]) /\ UNCHANGED <<comp, objs, lenient>>
+(* the damaged message decoded with expected values not enforced (ignore_value_expectation): it succeeds; the option
+   belongs to that call only - afterwards the same coder must refuse the message again *)
+DecodeLenient(m) == /\ m \in Bad /\ Step("decode_ive", m)
+                    /\ tg' = Load(KeyOf[m]) /\ lenient' = TRUE /\ UNCHANGED <<comp, objs>>
 Encode(m) == /\ m \in Msgs \ Bad /\ Step("encode", m)
-             /\ tg' = Load(KeyOf[m]) /\ comp' \in Compile(TmplOf[m], KeyOf[m]) /\ UNCHANGED objs
-Use(op, m) == /\ m \in objs /\ Step(op, m) /\ UNCHANGED <<tg, comp, objs>>
+             /\ tg' = Load(KeyOf[m]) /\ comp' \in Compile(TmplOf[m], KeyOf[m]) /\ UNCHANGED <<objs, lenient>>
+Use(op, m) == /\ m \in objs /\ Step(op, m) /\ UNCHANGED <<tg, comp, objs, lenient>>
 
-Next == \E m \in Msgs : Decode(m) \/ DecodeFails(m) \/ Encode(m) \/ Use("query", m) \/ Use("render", m) \/ Use("rewire", m)
+Next == \E m \in Msgs : Decode(m) \/ DecodeFails(m) \/ DecodeLenient(m) \/ Encode(m) \/ Use("query", m) \/ Use("render", m) \/ Use("rewire", m)
 
 SizeBounded == Len(tg) <= TgLimit /\ (CompMax >= 0 => Cardinality(comp) <= CompMax)
 NoDuplicateKeys == \A i, j \in 1..Len(tg) : tg[i] = tg[j] => i = j
 (* a key that was requested last is always present afterwards *)
-LastRequestedIsCached == (hist # <<>> /\ hist[Len(hist)].op \in {"decode", "encode", "decode_fails"}) => Has(tg, KeyOf[hist[Len(hist)].m])
+LastRequestedIsCached == (hist # <<>> /\ hist[Len(hist)].op \in {"decode", "encode", "decode_fails", "decode_ive"}) => Has(tg, KeyOf[hist[Len(hist)].m])
 
 EmitTransition == PrintT(ToJson(hist'))
 =============================================================================
